@@ -24,3 +24,7 @@ Definition pandora_check_completed (fs : string -> option finfo) (cfg : jv) : re
 
 Definition pandora_check_input_section (fs : string -> option finfo) (user : jv) : res jv :=
   check_input_section fs gen_schemas default_short_configuration_input images_checked user.
+
+(* what check_conf does with the user configuration before anything else *)
+Definition pandora_check_conf_input (fs : string -> option finfo) (user : jv) : res jv :=
+  bind (get_config_input user) (pandora_check_input_section fs).
